@@ -211,6 +211,9 @@ func (server *Server) ZRange(conn *redis.Conn, key string, start int, stop int, 
 	if err != nil {
 		return nil, err
 	}
+	if !db.HasRecord(key) {
+		return redis.NewArrayMessage(), nil
+	}
 	_, zset, err := db.GetZSetRecord(key)
 	if err != nil {
 		return nil, err
@@ -231,6 +234,9 @@ func (server *Server) ZRangeByScore(conn *redis.Conn, key string, start float64,
 	db, err := server.GetDatabase(conn.Database())
 	if err != nil {
 		return nil, err
+	}
+	if !db.HasRecord(key) {
+		return redis.NewArrayMessage(), nil
 	}
 	_, zset, err := db.GetZSetRecord(key)
 	if err != nil {
@@ -253,17 +259,27 @@ func (server *Server) ZRem(conn *redis.Conn, key string, members []string) (*red
 	if err != nil {
 		return nil, err
 	}
+	if !db.HasRecord(key) {
+		return redis.NewIntegerMessage(0), nil
+	}
 	_, zset, err := db.GetZSetRecord(key)
 	if err != nil {
 		return nil, err
 	}
-	return redis.NewIntegerMessage(zset.Rem(members)), nil
+	removedMemberCount := zset.Rem(members)
+	if len(zset.members) == 0 {
+		db.RemoveRecord(key)
+	}
+	return redis.NewIntegerMessage(removedMemberCount), nil
 }
 
 func (server *Server) ZScore(conn *redis.Conn, key string, member string) (*redis.Message, error) {
 	db, err := server.GetDatabase(conn.Database())
 	if err != nil {
 		return nil, err
+	}
+	if !db.HasRecord(key) {
+		return redis.NewNilMessage(), nil
 	}
 	_, zset, err := db.GetZSetRecord(key)
 	if err != nil {
